@@ -12,10 +12,11 @@ VERIF = stages.VERIF
 
 TRUSTED_BASE = [
     "Lean 4.33.0 kernel; axioms limited to propext, Classical.choice, Quot.sound (audited by #print axioms on every property theorem on every run); no native_decide/bv_decide/sorry/axiom",
-    "hand-written Lean model of the derive's macro-time program and of every generated-code schema (lean/EnumToolsModel/{Parse,Config,Macro,Gen,Iter}.lean), tied to /repo by the behavioural correspondence (real derive under rustc vs compiled model vs specification, same declarations and operations)",
-    "translator /verif/translate (python) regenerating lean/EnumToolsModel/Generated/*.lean from /repo/src on every run",
-    "rustc/cargo 1.95.0 as executor of the real derive; the generated corpus, comparer and replay writer in /verif/harness",
-    "modelled, not verified: Rust semantics of the generated subset (as-casts, wrapping ops, checked +/-, RangeInclusive::contains, slice indexing and its panics, transmute validity = declared discriminant), core's slice/array/RangeInclusive iterators as list cursors and core's default Iterator methods, syn/quote/proc-macro-error behaviour, HashMap as an association map with arbitrary iteration order",
+    "hand-written Lean model of the derive's macro-time program (lean/EnumToolsModel/{Parse,Config,Macro}.lean), tied to /repo by accept/reject probes and by comparing the tables/items/modes it predicts with the real expansion; hand-written reading of the generated code (Gen.lean, Iter.lean), tied to /repo twice: behaviourally (real derive under rustc vs compiled model vs specification, same declarations and operations) and by proof against the function bodies translated from the quote! templates on this run (Lemmas/TemplatesEq.lean, TemplatesRun.lean)",
+    "translator /verif/translate (python) regenerating lean/EnumToolsModel/Generated/*.lean from /repo/src on every run, incl. Templates.lean (the generated function bodies); its source-level normalisations (canonical names of the `Names` fields, inlined template helpers and fragments, comparisons reduced to < and =) and the meaning it gives to interpolated names are part of this trust; its output for the templates is executed against the real derive on the whole corpus (third column T=)",
+    "lean/EnumToolsModel/Rust.lean: the semantics given to the Rust constructs that occur in template bodies (casts, wrapping and checked arithmetic, indexing/slicing and their panics, transmute validity = declared discriminant, unwrap_unchecked/assume_init UB, for/loop shapes, first-match semantics of match)",
+    "rustc/cargo 1.95.0 as executor of the real derive; the generated corpus, probes, comparer and replay writer in /verif/harness",
+    "modelled, not verified: core's slice/array/RangeInclusive iterators as list cursors and core's provided Iterator methods (nth, last, count, fold, min, max, … defined from next/next_back), the nine forwarding methods of extend_common (wiring checked over the inventory), the macro-time construction of the tables (compared with the real expansion), syn/quote/proc-macro-error behaviour, HashMap as an association map with arbitrary iteration order, rustc's typing, privacy and name resolution",
 ]
 
 BEHAV_KINDS = {
